@@ -6,8 +6,6 @@
 package c19
 
 import (
-	"sync/atomic"
-	"syscall"
 	"context"
 	"errors"
 	"fmt"
@@ -19,6 +17,8 @@ import (
 	"strconv"
 	"strings"
 	"sync"
+	"sync/atomic"
+	"syscall"
 	"testing"
 	"time"
 
@@ -45,7 +45,10 @@ type timeline struct {
 	Writers   int
 	PeriodMS  []int // per writer
 	ViaLogger bool
-	Bursters  int // goroutines that hit every boundary together
+	// RollingLogger (ViaLogger, not AsyncRoot): the tag is served by a logger of type RollingFile,
+	// which builds and owns its rolling appender itself, instead of a Logger referring to one
+	RollingLogger bool
+	Bursters      int // goroutines that hit every boundary together
 	// AsFile: while the directory is away a regular file sits at its path (the path exists, is not a directory)
 	AsFile bool
 	// Companion: a second rolling appender (other name, interval of this many seconds, 0 = none)
@@ -69,11 +72,11 @@ type timeline struct {
 }
 
 func (tl timeline) String() string {
-	return fmt.Sprintf("dur=%dms outages=%v writers=%d periods=%v viaLogger=%v bursters=%d asFile=%v companion=%ds interval=%ds asyncRoot=%v flooders=%d", tl.DurMS, tl.Outages, tl.Writers, tl.PeriodMS, tl.ViaLogger, tl.Bursters, tl.AsFile, tl.Companion, max(tl.IntervalS, 1), tl.AsyncRoot, tl.Flooders)
+	return fmt.Sprintf("dur=%dms outages=%v writers=%d periods=%v viaLogger=%v bursters=%d asFile=%v companion=%ds interval=%ds asyncRoot=%v flooders=%d rollingLogger=%v", tl.DurMS, tl.Outages, tl.Writers, tl.PeriodMS, tl.ViaLogger, tl.Bursters, tl.AsFile, tl.Companion, max(tl.IntervalS, 1), tl.AsyncRoot, tl.Flooders, tl.RollingLogger)
 }
 
 func genTimeline(t *rapid.T, label string) timeline {
-	tl := timeline{DurMS: rapid.IntRange(3200, 6000).Draw(t, label+"dur"), Writers: rapid.IntRange(1, 4).Draw(t, label+"writers"), ViaLogger: rapid.Bool().Draw(t, label+"viaLogger")}
+	tl := timeline{DurMS: rapid.IntRange(3200, 6000).Draw(t, label+"dur"), Writers: rapid.IntRange(1, 4).Draw(t, label+"writers"), ViaLogger: rapid.Bool().Draw(t, label+"viaLogger"), RollingLogger: rapid.Bool().Draw(t, label+"rollingLogger")}
 	for w := 0; w < tl.Writers; w++ {
 		tl.PeriodMS = append(tl.PeriodMS, rapid.SampledFrom([]int{7, 23, 60, 150, 400}).Draw(t, label+"period"))
 	}
@@ -160,6 +163,12 @@ func runTimeline(tl timeline, parent string) outcome {
 			"enableCaller": "false", "appender.r.type": "RollingFile", "appender.r.fileDir": dir, "appender.r.fileName": "roll.log", "appender.r.rotation": strconv.Itoa(max(tl.IntervalS, 1)) + "s", "appender.r.maxAge": "100",
 			"logger.l.type": "Logger", "logger.l.tags": "_c19_t", "logger.l.appenderRef.ref": "r",
 		}
+		if tl.RollingLogger && !tl.AsyncRoot {
+			m = map[string]string{
+				"enableCaller": "false", "appender.unused.type": "Discard",
+				"logger.l.type": "RollingFile", "logger.l.tags": "_c19_t", "logger.l.fileDir": dir, "logger.l.fileName": "roll.log", "logger.l.rotation": strconv.Itoa(max(tl.IntervalS, 1)) + "s", "logger.l.maxAge": "100", "logger.l.async": "false", "logger.l.separate": "false",
+			}
+		}
 		if tl.AsyncRoot {
 			// no logger lists the tag: it is served by root, which is asynchronous and blocks when full
 			m = map[string]string{
@@ -170,6 +179,14 @@ func runTimeline(tl timeline, parent string) outcome {
 		err := log.Refresh(m)
 		if err != nil {
 			return outcome{err: fmt.Errorf("VERIF-INCONCLUSIVE: %v", err)}
+		}
+		switch {
+		case tl.AsyncRoot:
+			vk.Class("path:async-root+rolling-appender")
+		case tl.RollingLogger:
+			vk.Class("path:rolling-file-logger")
+		default:
+			vk.Class("path:logger+rolling-appender")
 		}
 		write = func(line string) (any, bool) {
 			done, p := vk.Within(10*time.Second, func() { log.Info(context.Background(), tagT, log.String("rec", line)) })
@@ -779,8 +796,8 @@ func TestC19_StalledRotation(t *testing.T) {
 		type sc struct{ awayMS, releaseMS, restoreMS, periodMS int }
 		scs := make([]sc, K)
 		for i := range scs {
-			scs[i].awayMS = rapid.IntRange(80, 600).Draw(t, fmt.Sprintf("away%d", i))                        // after S1
-			scs[i].releaseMS = rapid.IntRange(250, 450).Draw(t, fmt.Sprintf("release%d", i))                 // after S2: every writer has written after S2 by then
+			scs[i].awayMS = rapid.IntRange(80, 600).Draw(t, fmt.Sprintf("away%d", i))        // after S1
+			scs[i].releaseMS = rapid.IntRange(250, 450).Draw(t, fmt.Sprintf("release%d", i)) // after S2: every writer has written after S2 by then
 			// the directory is back right after the release, before the writers' next write: what that
 			// write finds decides (an attempt made while the directory is still away fails again and
 			// hides a wrongly restored interval)
